@@ -11,6 +11,7 @@ package main
 //	D3k  Stack.Pop moves the head, decrements the length and clears the popped item's owner together
 
 import (
+	"strings"
 	"fmt"
 	"go/ast"
 	"go/token"
@@ -769,5 +770,189 @@ func ruleD6e(c *Ctx) {
 		R.Check(ok, "D6e", "dt.(*Set).DeleteCheck/unindexed", p.Position(f.Pos()), "the value leaves the index on every successful path", "Set.DeleteCheck does not delete the value from the index: Check/Len still report it and a second Delete returns true again although the element is gone from the order list")
 	} else {
 		R.Fail("D6e", "dt.(*Set).DeleteCheck/unindexed", "-", "not found")
+	}
+}
+
+// ---------------------------------------------------------------- L7 / U2b  (adt.Once)
+
+// ruleOnce: adt.Once has no mutex. Its plain fields are safe only because they
+// are written inside the sync.Once body (and read after Do returned); any field
+// written elsewhere must be of an atomic type. And the only way out of Do /
+// Resolve is through once.Do, which blocks late callers until the first
+// execution has finished.
+func ruleOnce(c *Ctx) {
+	R := c.R
+	p := c.P
+	R.Rule("L7", "every field of adt.Once that is written outside the sync.Once body (directly, or in a helper that is only ever run by once.Do) and outside the constructor is of an atomic type", 1)
+	R.Rule("U2b", "adt.Once.Do and Resolve reach every exit through once.Do (no fast path around it: `called` is set before the constructor has finished)", 2)
+	var methods []*Func
+	for _, f := range p.FuncsIn("adt") {
+		if f.Decl != nil && f.Decl.Recv != nil && recvNamed(f) == "Once" {
+			methods = append(methods, f)
+		}
+	}
+	if len(methods) == 0 {
+		R.Fail("L7", "adt.Once", "-", "adt.Once not found")
+		return
+	}
+	// helpers that are only run by once.Do: referenced only as `o.once.Do(o.helper)` or called inside a once.Do literal
+	onceOnly := map[*types.Func]bool{}
+	for _, g := range methods {
+		if g.Obj == nil {
+			continue
+		}
+		refs, guarded := 0, 0
+		for _, f := range methods {
+			info := f.Info()
+			ast.Inspect(f.Body, func(x ast.Node) bool {
+				se, ok := x.(*ast.SelectorExpr)
+				if !ok {
+					return true
+				}
+				s := info.Selections[se]
+				if s == nil || s.Kind() != types.MethodVal {
+					return true
+				}
+				if fn, ok := s.Obj().(*types.Func); !ok || fn.Origin() != g.Obj.Origin() {
+					return true
+				}
+				refs++
+				for par := p.Parent(se); par != nil; par = p.Parent(par) {
+					if call, ok := par.(*ast.CallExpr); ok && callName(info, call) == "sync.(*Once).Do" {
+						guarded++
+						break
+					}
+					if _, ok := par.(*ast.FuncDecl); ok {
+						break
+					}
+				}
+				return true
+			})
+		}
+		if refs > 0 && refs == guarded {
+			onceOnly[g.Obj.Origin()] = true
+		}
+	}
+	n := 0
+	for _, f := range methods {
+		info := f.Info()
+		if f.Obj != nil && onceOnly[f.Obj.Origin()] {
+			continue
+		}
+		recv := recvObject(f)
+		ast.Inspect(f.Body, func(x ast.Node) bool {
+			as, ok := x.(*ast.AssignStmt)
+			if !ok {
+				return true
+			}
+			for _, l := range as.Lhs {
+				se, ok := ast.Unparen(l).(*ast.SelectorExpr)
+				if !ok {
+					continue
+				}
+				if id, ok := ast.Unparen(se.X).(*ast.Ident); !ok || info.Uses[id] != recv {
+					continue
+				}
+				// inside a once.Do literal?
+				inOnce := false
+				for par := p.Parent(as); par != nil; par = p.Parent(par) {
+					if call, ok := par.(*ast.CallExpr); ok && callName(info, call) == "sync.(*Once).Do" {
+						inOnce = true
+					}
+					if _, ok := par.(*ast.FuncDecl); ok {
+						break
+					}
+				}
+				if inOnce {
+					continue
+				}
+				n++
+				tv := info.Types[se]
+				safe, _ := l6TypeSafe(tv.Type)
+				R.Check(safe, "L7", fmt.Sprintf("%s/store(%s)", f.Name, se.Sel.Name), p.Position(as.Pos()), "atomic field",
+					fmt.Sprintf("%s assigns the plain field %s outside the sync.Once body: it races with the execution that reads (and clears) it inside once.Do", f.Name, se.Sel.Name))
+			}
+			return true
+		})
+	}
+	if n == 0 {
+		R.OK("L7", "adt.Once/no-plain-store-outside-once", "-", "no plain field of adt.Once is assigned outside the sync.Once body")
+	}
+	for _, name := range []string{"adt.(*Once).Do", "adt.(*Once).Resolve"} {
+		f := p.FuncNamed(name)
+		if f == nil {
+			R.Fail("U2b", name, "-", "not found")
+			continue
+		}
+		info := f.Info()
+		fl := newFlow(f)
+		entry := blockNode{fl.G.Blocks[0], -1}
+		_, skips := fl.pathToExitAvoiding(entry, func(n ast.Node) bool {
+			hit := false
+			ast.Inspect(n, func(y ast.Node) bool {
+				if call, ok := y.(*ast.CallExpr); ok && callName(info, call) == "sync.(*Once).Do" {
+					hit = true
+				}
+				return !hit
+			})
+			return hit
+		})
+		R.Check(!skips, "U2b", name+"/through-once", p.Position(f.Pos()), "every path passes once.Do", name+" has a path that returns without once.Do: a caller that arrives while the first execution is still running returns at once, before the value exists")
+	}
+}
+
+// ---------------------------------------------------------------- L4p
+
+// ruleL4p: a critical section that contains a call which panics by design
+// releases its mutex with defer.
+func ruleL4p(c *Ctx, owners map[string]bool, floor int) {
+	R := c.R
+	p := c.P
+	R.Rule("L4p", "a method of a guarded type whose critical section contains a call that panics by design (fun.Invariant.*, panic) releases the mutex with defer: an explicit Unlock after the call leaves the mutex locked for ever once the panic is recovered upstream", floor)
+	for _, f := range p.Funcs {
+		if f.Decl == nil || f.Decl.Recv == nil {
+			continue
+		}
+		key := shortPkg(f.Pkg.PkgPath) + "." + recvNamed(f)
+		if !owners[key] {
+			continue
+		}
+		info := f.Info()
+		var lock, explicitUnlock, panicky ast.Node
+		deferred := false
+		walkNoLit(f.Body, func(x ast.Node) bool {
+			switch t := x.(type) {
+			case *ast.DeferStmt:
+				if strings.HasSuffix(callName(info, t.Call), ".Unlock") {
+					deferred = true
+				}
+				// defer adt.With(adt.Lock(m)) and friends
+				if len(t.Call.Args) == 1 {
+					if inner, ok := ast.Unparen(t.Call.Args[0]).(*ast.CallExpr); ok && (selName(inner) == "lock" || selName(inner) == "Lock" || callName(info, inner) == "adt.Lock") {
+						deferred = true
+					}
+				}
+				return false
+			case *ast.CallExpr:
+				cn := callName(info, t)
+				switch {
+				case strings.HasSuffix(cn, "Mutex).Lock") || strings.HasSuffix(cn, "Locker.Lock"):
+					if lock == nil {
+						lock = t
+					}
+				case strings.HasSuffix(cn, "Mutex).Unlock") || strings.HasSuffix(cn, "Locker.Unlock"):
+					explicitUnlock = t
+				case strings.HasPrefix(cn, "fun.RuntimeInvariant.") || isBuiltinCall(info, t, "panic"):
+					panicky = t
+				}
+			}
+			return true
+		})
+		if lock == nil || panicky == nil {
+			continue
+		}
+		at := f.Name + "/panic-safe-unlock"
+		R.Check(deferred && explicitUnlock == nil || deferred, "L4p", at, p.Position(f.Pos()), "the mutex is released by defer",
+			fmt.Sprintf("%s can panic at %s while holding its mutex and releases it with an explicit Unlock: after the (recovered) panic every later call on the object blocks for ever — also a Wait whose context is cancelled", f.Name, p.Position(panicky.Pos())))
 	}
 }
